@@ -1,6 +1,7 @@
 import Robust.Props.C02
 import Robust.Props.C04
 import Robust.Props.C10
+import Robust.Gen.Exprs
 /-!
 # C05 — acknowledged messages survive crashes and fail-over, exactly once, everywhere
 
@@ -137,6 +138,16 @@ theorem C05_client_exactly_once (net : Stream.Resume.Net) (h : Stream.Resume.WfN
     ∃ n, Robust.Props.C04.client net session start sched [] =
       ((Robust.Props.C04.owed net start.1 start.2).filter (Stream.Resume.interesting session)).take n :=
   Robust.Props.C04.C04_client_exactly_once net h session start hs sched
+
+/-- regenerated from api.go: a POST is acknowledged only after raft reported the entry committed and the
+FSM's response was checked — `applyMessageWait` waits on `f.Error()` itself (no goroutine, select or timer
+that could let it return while the entry is still in flight: a client that is told "failed" retries, and a
+retry of an entry that commits later is a duplicate), and the id is taken only afterwards -/
+theorem C05_ack_after_commit :
+    Robust.Gen.Exprs.fact "apply.wait" = "err := f.Error() ; err != nil ; { return err }" ∧
+    Robust.Gen.Exprs.fact "apply.async" = "0" ∧
+    Robust.Gen.Exprs.fact "apply.idAfterErrorCheck" = "true" ∧
+    Robust.Gen.Exprs.fact "apply.conds" = "api.useProtobuf ;; err != nil ;; err != nil ;; err != nil ;; ok" := by decide
 
 /-! non-vacuity: a three-entry log, one node that was killed and restarted after a snapshot, one that
 lags behind -/
